@@ -23,6 +23,7 @@ RULE = (
     "Oracle: integer arithmetic tiling [k*w, min((k+1)w, L)). Non-trivial = some chromosome "
     "with L not a multiple of w and >=2 bins (binnify routes) or a near-uniform/mixed/"
     "longer-last-bin table (inference routes). Distinct by sha1 of the canonical case."
+    " Also: `cooler info -f <field>` against the stored table when user metadata has keys named like standard fields; chromsizes names containing '#'; unit-suffixed bin sizes in parse_bins (refused, or exactly the integer denoted, on chromosomes long enough to show one bp)."
 )
 ASSUMPTIONS = [
     "bin tables given to the inference are valid: per chromosome contiguous from 0, strictly increasing",
